@@ -2,8 +2,8 @@
    Statements only; proofs in Proofs/InvProofs.v and Proofs/RefreshProofs.v.
    (The clauses about enumerated / reduced forms and ancilla names are
    C01_shape and C02_fresh_ancillas.) *)
-From QV.Model Require Import Base Matrix Arith.
-From QV.Proofs Require Import BaseProofs KeyProofs ArithProofs InvProofs RefreshProofs.
+From QV.Model Require Import Base Matrix Arith Expr Extrema Sat PCBO Convert PCSO.
+From QV.Proofs Require Import BaseProofs KeyProofs ArithProofs InvProofs RefreshProofs LabelProofs PCBOProofs AncProofs InvConstraint.
 Open Scope Q_scope.
 
 (* a freshly constructed model satisfies the invariant *)
@@ -26,6 +26,20 @@ Print Assumptions C14_reachable.
 (* what the invariant says about labelled models: |mapping| = next label =
    num_binary_variables, mapping/reverse_mapping are mutually inverse, and the
    integers used are exactly 0 .. n-1 *)
+(* adding constraints is an edit too: the six comparison methods of PCBO and of PCSO (every branch) preserve the invariant,
+   so it holds after every history that mixes them with the edits above; and the ancilla names they create are new:
+   every '__a j' present has j below the counter (C02_ancilla_bound / C03_ancilla_bound), which only grows *)
+Theorem C14_constraint_step : forall m h m', Inv m -> apply_hedit m h = Ok m' -> Inv m'.
+Proof. exact apply_hedit_Inv. Qed.
+Print Assumptions C14_constraint_step.
+Theorem C14_reachable_with_constraints : forall es m m', Inv m -> run_hedits m es = Ok m' -> Inv m'.
+Proof. exact run_hedits_Inv. Qed.
+Print Assumptions C14_reachable_with_constraints.
+Theorem C14_ancilla_names : forall r m Pin lam lt b m' w t, add_constraint r m Pin lam lt b = Ok (m', w, t) ->
+  LP (AB (anc m)) (tm m) -> LP (AB (anc m)) Pin -> LP (AB (anc m')) (tm m') /\ (anc m <= anc m')%nat.
+Proof. exact add_constraint_AB. Qed.
+Print Assumptions C14_ancilla_names.
+
 Theorem C14_counts : forall m, Inv m -> is_labelled (kd m) = true ->
   length (mp m) = num_vars m /\ next_label m = num_vars m.
 Proof. exact Inv_counts. Qed.
